@@ -128,6 +128,7 @@ type VPkg struct {
 	Minor      int      `json:"minor"`
 	Tags       []string `json:"tags"`
 	Objs       []VObj   `json:"objs"`
+	Direct     []string `json:"direct_imports"` // types.Package.Imports(): what the package imports itself
 
 	names map[string][]string // package name -> paths, over everything the wrapper file would have to import
 }
@@ -283,7 +284,10 @@ func tupleView(t *types.Tuple) []VParam {
 
 // viewOf builds the view of a type-checked package.
 func viewOf(p *types.Package, importPath string) *VPkg {
-	v := &VPkg{ImportPath: importPath, Path: p.Path(), Name: p.Name()}
+	v := &VPkg{ImportPath: importPath, Path: p.Path(), Name: p.Name(), Direct: []string{}}
+	for _, ip := range p.Imports() {
+		v.Direct = append(v.Direct, ip.Path())
+	}
 	sc := p.Scope()
 	for _, name := range sc.Names() {
 		o := sc.Lookup(name)
@@ -411,7 +415,7 @@ func (o *VObj) sexp() string {
 // line is the protocol line: both models applied to the view.
 func (v *VPkg) line(provided []string) string {
 	parts := []string{"C18", "gen", common.QL(provided), fmt.Sprint(newestMinor),
-		common.L("pkg", common.Q(v.ImportPath), common.Q(v.Path), common.Q(v.Name), common.Q(v.Dest), fmt.Sprint(v.Minor), common.QL(v.Tags))}
+		common.L("pkg", common.Q(v.ImportPath), common.Q(v.Path), common.Q(v.Name), common.Q(v.Dest), fmt.Sprint(v.Minor), common.QL(v.Tags), common.QL(v.Direct))}
 	for i := range v.Objs {
 		parts = append(parts, v.Objs[i].sexp())
 	}
